@@ -1,5 +1,5 @@
 /* C34: MpmcRingBuffer<T, Capacity, RoundUp> (dispenso/mpmc_ring_buffer.h) under rely/guarantee, any number of producers/consumers.
- * -DKBUF=<kBufferSize> -DKPOW2=<0|1> come from the real header (probe).  Slot = { T_cell data; size_t seq; }.
+ * -DKBUF=<kBufferSize> -DKPOW2=<0|1> come from the real header (probe).
  *
  * Positions are 64-bit counters head_ <= tail_ (fully symbolic, below POS_BOUND: no counter wrap, stated assumption).
  * Per-slot invariant I_j (state-based, Vyukov):  with s = slots_[j].seq
@@ -8,98 +8,173 @@
  *   B(s): wrap(s-1) == j, s-1 < tail <= s-1+N, head <= s-1+N    "published for position p = s-1"; p >= head => data live
  *                                                               p <  head  => claimed by the consumer of position p (in flight)
  * Global: head <= tail <= head + N.
- * Ownership ghost of THIS thread: g_own[j] in {0, 1 = claimed as producer, 2 = claimed as consumer}; taken only by a successful
- * CAS on tail_/head_ (at which the slot must be in state A(claimed pos) / B(claimed pos + 1)), given up by the release store to seq.
+ * Ownership ghost of THIS thread (per slot): own in {0, 1 = claimed as producer, 2 = claimed as consumer}; taken only by a
+ * successful CAS on tail_/head_ (at which the slot must be in state A(claimed pos) / B(claimed pos + 1)), given up by the release
+ * store to seq.
  * Rely (others_act, before every atomic access of this thread): head_, tail_ and every seq only grow, I_j keeps holding for every j,
  * slots this thread owns are untouched, an element that stays available (B, p >= head) keeps its value.
- * Guarantee (checked at every atomic write of this thread): the same, from the other threads' point of view: I_j for all j afterwards,
- * monotone, seq written only for an owned slot, slot data touched only while owned. */
+ * Guarantee (checked at every atomic write of this thread): the same, from the other threads' point of view: I_j afterwards,
+ * monotone, seq written only for an owned slot, slot data touched only while owned.
+ *
+ * Which slots are carried.  The invariant is per slot (I_j mentions head_, tail_ and slot j only), so the slots_ array is rendered by
+ * TWO tracked slots and a junk slot:
+ *   - slot g_k: an arbitrary index (what is proved for it is proved for every slot), and
+ *   - slot g_a: the slot a single-element operation works on -- a prophecy variable chosen arbitrarily in the harness; the statement
+ *     that binds the slot reference (`Slot& slot = slots_[wrapIndex(pos)]`) is followed by VERIF_ACTIVE(slot_i) = assume(slot_i == g_a),
+ *     so every execution is covered by exactly one choice of g_a;
+ *   - every other index reads and writes `junk`, which is havocked WITHOUT any constraint before each access (an over-approximation of
+ *     anything the other threads can do to it); obligations are asserted for tracked slots only -- g_k being arbitrary, for all.
+ * The batch push works on several slots: no prophecy (-DNO_PROPHECY); its quiescent exactness clause is proved where both tracked
+ * slots are all the slots there are (kBufferSize == 2, g_a != g_k).
+ *
+ * wrap(i) = i % kBufferSize.  For power-of-two sizes it is the mask, bit-precise, and the whole proof below is run.  For other sizes
+ * a 64-bit remainder inside the rely/guarantee proof is out of SAT's reach here (probed: > 20 min as a divider, as an uninterpreted
+ * function with axioms, and as a q*N+r decomposition), so for exact sizes only wrapIndex (CBMC, -DWRAP_EXACT: returns
+ * i % kBufferSize) and the modular facts the protocol argument uses (lemma unit c34_wrap_axioms, intwp/z3) are verified. */
 #include "prelude.h"
-#include "lifetime.h"
-#include "atomics.h"
 #define RV __CPROVER_return_value
-unsigned g_T_constructed, g_T_destroyed;
-int g_last_mo;
 #define kBufferSize ((size_t)KBUF)
 #define kIsPow2 KPOW2
 #define kMask ((size_t)(KBUF - 1))
-#define POS_BOUND (((size_t)1) << 62)
-typedef struct Slot { T_cell data; size_t seq; } Slot;
-typedef struct Ring { size_t head_; size_t tail_; Slot slots_[KBUF]; } Ring;
+#ifndef POS_BITS
+#define POS_BITS 62
+#endif
+#define POS_BOUND (((size_t)1) << POS_BITS)
+
+#if defined(VERIF_INTWP)
+/* ---- lemma unit: the axioms assumed of the uninterpreted wrap hold of i % N (mathematical check of the exact C semantics) */
+void c34_wrap_axioms(size_t x, size_t y)
+__CPROVER_requires(x < POS_BOUND + 2 * kBufferSize && y < POS_BOUND + 2 * kBufferSize && kBufferSize >= 2)
+__CPROVER_assigns()
+{
+  __CPROVER_assert(x % kBufferSize < kBufferSize, "AX1: wrap(x) < N");
+  __CPROVER_assert(!(x <= y && y - x <= kBufferSize && x % kBufferSize == y % kBufferSize) || y == x || y == x + kBufferSize, "AX2: equal residues within one lap: same position or exactly one lap apart");
+  __CPROVER_assert((x + kBufferSize) % kBufferSize == x % kBufferSize, "AX3: wrap(x + N) == wrap(x)");
+  __CPROVER_assert((x + 1) % kBufferSize == (x % kBufferSize + 1 == kBufferSize ? 0 : x % kBufferSize + 1), "AX4: wrap(x + 1) is the cyclic successor of wrap(x)");
+}
+#else
+#include "lifetime.h"
+#include "atomics.h"
+unsigned g_T_constructed, g_T_destroyed;
+int g_last_mo;
+typedef struct Slot { T_cell data; size_t seq; int own; size_t ownpos; } Slot;   /* own, ownpos: ghost */
+typedef struct Ring { size_t head_; size_t tail_; Slot sa, sk, junk; } Ring;
 typedef struct OpResult { T_cell buf_; int has; } OpResult;
 
 Ring* g_ring; int g_role;          /* 1 = concurrent (interference before every atomic access), 0 = quiescent */
-int g_own[KBUF]; size_t g_ownpos[KBUF];
-bool g_bad_order, g_viol;
+size_t g_a, g_k;                   /* indices of the tracked slots */
+bool g_bad_order;
 unsigned g_claims, g_publishes;    /* successful claiming CASes / release stores to seq by this thread */
 size_t g_claimed_pos; T_tag g_claimed_val; size_t g_claimed_n;
 _Bool nondet_bool(void); size_t nondet_size_t(void); int nondet_int(void);
 
+#if KPOW2 || defined(WRAP_EXACT)
 #define WRAP(i) (kIsPow2 ? ((i) & kMask) : ((i) % kBufferSize))
-#define ST_A(r, j) (WRAP((r)->slots_[j].seq) == (j) && (r)->head_ <= (r)->slots_[j].seq && (r)->slots_[j].seq < (r)->head_ + kBufferSize && \
-                    ((r)->slots_[j].seq >= (r)->tail_ ? (r)->slots_[j].data.live == 0 : 1))
-#define ST_B(r, j) ((r)->slots_[j].seq >= 1 && WRAP((r)->slots_[j].seq - 1) == (j) && (r)->slots_[j].seq - 1 < (r)->tail_ && \
-                    (r)->tail_ <= (r)->slots_[j].seq - 1 + kBufferSize && (r)->head_ <= (r)->slots_[j].seq - 1 + kBufferSize && \
-                    ((r)->slots_[j].seq - 1 >= (r)->head_ ? (r)->slots_[j].data.live == 1 : 1))
-#define I_J(r, j) (ST_A(r, j) || ST_B(r, j))
-#define GLOBAL_OK(r) ((r)->head_ <= (r)->tail_ && (r)->tail_ <= (r)->head_ + kBufferSize && (r)->tail_ < POS_BOUND)
-/* this thread's ownership is consistent with the slot's state */
-#define OWN_OK(r, j) ((g_own[j] == 0) || (g_own[j] == 1 && (r)->slots_[j].seq == g_ownpos[j] && WRAP(g_ownpos[j]) == (j) && g_ownpos[j] < (r)->tail_) || \
-                      (g_own[j] == 2 && (r)->slots_[j].seq == g_ownpos[j] + 1 && WRAP(g_ownpos[j]) == (j) && g_ownpos[j] < (r)->head_))
-/* nobody is in flight on slot j */
-#define QUIET_J(r, j) (WRAP((r)->slots_[j].seq) == (j) ? (r)->slots_[j].seq >= (r)->tail_ : (r)->slots_[j].seq - 1 >= (r)->head_)
-
-static void check_all(Ring* r) {      /* guarantee: after every write of this thread the invariant holds for every slot */
-  __CPROVER_assert(GLOBAL_OK(r), "guarantee: head <= tail <= head + capacity after this thread's step");
-  for (size_t j = 0; j < kBufferSize; ++j) {
-    __CPROVER_assert(I_J(r, j), "guarantee: slot invariant (Vyukov sequence protocol) holds for every slot after this thread's step");
-    __CPROVER_assert(OWN_OK(r, j), "this thread's ownership ghost is consistent with the slot state");
-  }
+#else
+/* exact, divider-free rendering of x % N for x in range: the unique decomposition x == q*N + r, r < N */
+static size_t WRAPF(size_t x) {
+  size_t q = nondet_size_t(), r = nondet_size_t();
+  __CPROVER_assume(r < kBufferSize && q <= x && x == q * kBufferSize + r);
+  return r;
 }
+#define WRAP(i) WRAPF(i)
+#endif
 
+#define TRACKED(j) ((j) == g_a || (j) == g_k)
+static Slot* SL(Ring* r, size_t j) {          /* slots_[j] */
+  if (j == g_a) return &r->sa;
+  if (j == g_k) return &r->sk;
+  r->junk.seq = nondet_size_t(); __CPROVER_assume(r->junk.seq < POS_BOUND + 2 * kBufferSize);   /* any seq value is below the no-wrap bound */
+  r->junk.data.value = nondet_int(); r->junk.data.live = nondet_bool() ? 1 : 0; r->junk.data.moved_from = 0; r->junk.own = 0;
+  return &r->junk;
+}
+#define ST_A(r, s, j) (WRAP((s)->seq) == (j) && (r)->head_ <= (s)->seq && (s)->seq < (r)->head_ + kBufferSize && ((s)->seq >= (r)->tail_ ? (s)->data.live == 0 : 1))
+#define ST_B(r, s, j) ((s)->seq >= 1 && WRAP((s)->seq - 1) == (j) && (s)->seq - 1 < (r)->tail_ && (r)->tail_ <= (s)->seq - 1 + kBufferSize && \
+                       (r)->head_ <= (s)->seq - 1 + kBufferSize && ((s)->seq - 1 >= (r)->head_ ? (s)->data.live == 1 : 1))
+#define I_S(r, s, j) (ST_A(r, s, j) || ST_B(r, s, j))
+#define GLOBAL_G(r) ((r)->head_ <= (r)->tail_ && (r)->tail_ <= (r)->head_ + kBufferSize)
+#define GLOBAL_OK(r) (GLOBAL_G(r) && (r)->tail_ < POS_BOUND)      /* with the no-wrap assumption on the environment */
+/* this thread's ownership is consistent with the slot's state */
+#define OWN_OK(r, s, j) (((s)->own == 0) || ((s)->own == 1 && (s)->seq == (s)->ownpos && WRAP((s)->ownpos) == (j) && (s)->ownpos < (r)->tail_) || \
+                         ((s)->own == 2 && (s)->seq == (s)->ownpos + 1 && WRAP((s)->ownpos) == (j) && (s)->ownpos < (r)->head_))
+/* nobody is in flight on the slot */
+#define QUIET_S(r, s, j) (WRAP((s)->seq) == (j) ? (s)->seq >= (r)->tail_ : (s)->seq - 1 >= (r)->head_)
+#define INV_A(r) (I_S(r, &(r)->sa, g_a) && OWN_OK(r, &(r)->sa, g_a))
+#define INV_K(r) (g_k == g_a || (I_S(r, &(r)->sk, g_k) && OWN_OK(r, &(r)->sk, g_k)))
+
+static void wrap_axioms(Ring* r) { (void)r; }
+static void check_all(Ring* r) {      /* guarantee: after every write of this thread the invariant holds (for the arbitrary slot g_k: for every slot) */
+  wrap_axioms(r);
+  __CPROVER_assert(GLOBAL_G(r), "guarantee: head <= tail <= head + capacity after this thread's step");
+  __CPROVER_assert(I_S(r, &r->sa, g_a), "guarantee: slot invariant (Vyukov sequence protocol) holds for the slot operated on after this thread's step");
+  __CPROVER_assert(g_k == g_a || I_S(r, &r->sk, g_k), "guarantee: slot invariant (Vyukov sequence protocol) holds for every other slot after this thread's step");
+  __CPROVER_assert(OWN_OK(r, &r->sa, g_a) && (g_k == g_a || OWN_OK(r, &r->sk, g_k)), "this thread's ownership ghost is consistent with the slot state");
+}
+static void havoc_slot(Ring* r, Slot* x, size_t j, size_t h) {
+  if (x->own) return;                                       /* slots this thread owns are untouched */
+  size_t s = nondet_size_t(); __CPROVER_assume(s >= x->seq); /* seq only grows */
+  T_cell d; d.value = nondet_int(); d.live = nondet_bool() ? 1 : 0; d.moved_from = 0;
+  /* an element that was available and is still available (same seq, not yet claimed by a consumer) is untouched */
+  if (s == x->seq && WRAP(s) != j && s - 1 >= h) d = x->data;
+  x->seq = s; x->data = d;
+}
 static void others_act(void) {
   if (g_role != 1) return;
   Ring* r = g_ring;
   size_t h = nondet_size_t(), t = nondet_size_t();
   __CPROVER_assume(h >= r->head_ && t >= r->tail_ && h <= t && t <= h + kBufferSize && t < POS_BOUND);
-  for (size_t j = 0; j < kBufferSize; ++j) {
-    if (g_own[j]) continue;                                   /* slots this thread owns are untouched */
-    size_t s = nondet_size_t(); __CPROVER_assume(s >= r->slots_[j].seq);
-    T_cell d; d.value = nondet_int(); d.live = nondet_bool() ? 1 : 0; d.moved_from = 0;
-    /* an element that was available and is still available (same seq, not yet claimed by a consumer) is untouched */
-    if (s == r->slots_[j].seq && WRAP(s) != j && s - 1 >= h) d = r->slots_[j].data;
-    r->slots_[j].seq = s; r->slots_[j].data = d;
-  }
+  havoc_slot(r, &r->sa, g_a, h);
+  if (g_k != g_a) havoc_slot(r, &r->sk, g_k, h);
   r->head_ = h; r->tail_ = t;
-  for (size_t j = 0; j < kBufferSize; ++j) { __CPROVER_assume(I_J(r, j)); __CPROVER_assume(OWN_OK(r, j)); }
+  wrap_axioms(r);
+  __CPROVER_assume(INV_A(r) && INV_K(r));
 }
 #undef VERIF_INTERFERE
 #define VERIF_INTERFERE() others_act()
+#ifdef NO_PROPHECY
+#define VERIF_ACTIVE(i) ((void)0)
+#else
+#define VERIF_ACTIVE(i) __CPROVER_assume((i) == g_a)
+#endif
 
 static size_t A_LOAD_pos(const size_t* x, int mo) { VERIF_INTERFERE(); A_NOTE(mo); return *x; }
-/* seq is the word through which slot data changes hands: observed with acquire, published with release */
-static size_t A_LOAD_seq(const Slot* s, int mo) { VERIF_INTERFERE(); A_NOTE(mo); if (!MO_HAS_ACQUIRE(mo)) g_bad_order = 1; return s->seq; }
-static size_t slot_index(const Slot* s) { return (size_t)(s - g_ring->slots_); }
-static void A_STORE_seq(Slot* s, size_t v, int mo) {
+/* R8: `Slot& slot = slots_[e];` is rendered as the index `slot_i = e` it is bound to (a reference to an array element);
+ * seq is the word through which slot data changes hands: observed with acquire, published with release */
+static size_t A_LOAD_seq(Ring* self, size_t j, int mo) {
   VERIF_INTERFERE(); A_NOTE(mo);
-  size_t j = slot_index(s);
-  __CPROVER_assert(g_own[j] != 0, "guarantee: seq is written only by the thread that claimed the slot's position");
-  __CPROVER_assert(v > s->seq, "guarantee: seq only grows");
-  __CPROVER_assert(g_own[j] != 1 || v == g_ownpos[j] + 1, "guarantee: the producer of position p publishes its slot with seq = p + 1");
-  __CPROVER_assert(g_own[j] != 2 || v == g_ownpos[j] + kBufferSize, "guarantee: the consumer of position p frees its slot with seq = p + capacity");
+  __CPROVER_assert(j < kBufferSize, "slots_ index inside the array");
+  if (!MO_HAS_ACQUIRE(mo)) g_bad_order = 1;
+  return SL(self, j)->seq;
+}
+static void A_STORE_seq(Ring* self, size_t j, size_t v, int mo) {
+  VERIF_INTERFERE(); A_NOTE(mo);
+  __CPROVER_assert(j < kBufferSize, "slots_ index inside the array");
+  Slot* s = SL(self, j);
+  if (TRACKED(j)) {
+    __CPROVER_assert(s->own != 0, "guarantee: seq is written only by the thread that claimed the slot's position");
+    __CPROVER_assert(v > s->seq, "guarantee: seq only grows");
+    __CPROVER_assert(s->own != 1 || v == s->ownpos + 1, "guarantee: the producer of position p publishes its slot with seq = p + 1");
+    __CPROVER_assert(s->own != 2 || v == s->ownpos + kBufferSize, "guarantee: the consumer of position p frees its slot with seq = p + capacity");
+  }
   if (!MO_HAS_RELEASE(mo)) g_bad_order = 1;
-  s->seq = v; g_own[j] = 0; g_publishes++;
-  check_all(g_ring);
+  s->seq = v; s->own = 0; g_publishes++;
+  check_all(self);
 }
 /* claiming CAS on tail_ (producer) / head_ (consumer): strong, so it fails only if the value differs */
 static bool A_CAS_tail(Ring* self, size_t* expected, size_t desired, int mo) {
   VERIF_INTERFERE(); A_NOTE(mo);
   if (self->tail_ != *expected) { *expected = self->tail_; return 0; }
   __CPROVER_assert(desired > *expected && desired - *expected <= kBufferSize, "guarantee: tail_ only grows, by at most the capacity");
+#ifdef NO_PROPHECY
+  __CPROVER_assume(WRAP(desired - 1) == g_a);   /* batch: the prophecy slot g_a is the slot of the last position of the claimed run */
+#endif
   for (size_t p = *expected; p < desired; ++p) {
     size_t j = WRAP(p);
-    __CPROVER_assert(self->slots_[j].seq == p && self->slots_[j].data.live == 0, "a position is claimed for pushing only while its slot is free for exactly that position");
-    g_own[j] = 1; g_ownpos[j] = p;
+    if (TRACKED(j)) {
+      Slot* s = SL(self, j);
+      __CPROVER_assert(s->seq == p && s->data.live == 0 && s->own == 0, "a position is claimed for pushing only while its slot is free for exactly that position");
+      s->own = 1; s->ownpos = p;
+    }
   }
   g_claimed_pos = *expected; g_claimed_n = desired - *expected; g_claims++;
   self->tail_ = desired;
@@ -111,40 +186,56 @@ static bool A_CAS_head(Ring* self, size_t* expected, size_t desired, int mo) {
   if (self->head_ != *expected) { *expected = self->head_; return 0; }
   __CPROVER_assert(desired == *expected + 1, "guarantee: a pop claims exactly one position");
   size_t j = WRAP(*expected);
-  __CPROVER_assert(self->slots_[j].seq == *expected + 1 && self->slots_[j].data.live == 1, "a position is claimed for popping only while its slot holds the published element of exactly that position");
-  g_own[j] = 2; g_ownpos[j] = *expected;
-  g_claimed_pos = *expected; g_claimed_val = self->slots_[j].data.value; g_claimed_n = 1; g_claims++;
+  if (TRACKED(j)) {
+    Slot* s = SL(self, j);
+    __CPROVER_assert(s->seq == *expected + 1 && s->data.live == 1 && s->own == 0, "a position is claimed for popping only while its slot holds the published element of exactly that position");
+    s->own = 2; s->ownpos = *expected; g_claimed_val = s->data.value;
+  }
+  g_claimed_pos = *expected; g_claimed_n = 1; g_claims++;
   self->head_ = desired;
   check_all(self);
   return 1;
 }
-static T_cell* dataPtr(Slot* s) {
-  __CPROVER_assert(g_own[slot_index(s)] != 0, "slot data is touched only by the thread that claimed the slot's position");
-  return &s->data;
+/* slot data may be touched only between this thread's claiming CAS and its release store to seq; the accessors below are
+ * what R12 renders placement-new / destructor / move on dataPtr(slot) into: ownership is asserted at the access itself */
+static void S_construct(Ring* self, size_t j, T_tag v) {
+  __CPROVER_assert(j < kBufferSize, "slots_ index inside the array");
+  Slot* s = SL(self, j);
+  if (TRACKED(j)) { __CPROVER_assert(s->own == 1, "slot data is constructed only by the producer that claimed the slot's position, before it publishes"); T_construct_at(&s->data, v); }
+  else g_T_constructed++;
+}
+static T_tag S_move_from(Ring* self, size_t j) {
+  __CPROVER_assert(j < kBufferSize, "slots_ index inside the array");
+  Slot* s = SL(self, j);
+  if (TRACKED(j)) { __CPROVER_assert(s->own == 2, "slot data is moved out only by the consumer that claimed the slot's position, before it frees the slot"); return T_move_from(&s->data); }
+  return s->data.value;
+}
+static void S_destroy(Ring* self, size_t j) {
+  __CPROVER_assert(j < kBufferSize, "slots_ index inside the array");
+  Slot* s = SL(self, j);
+  if (TRACKED(j)) { __CPROVER_assert(s->own == 2 || g_role == 0, "slot data is destroyed only by the consumer that claimed the slot's position, before it frees the slot"); T_destroy_at(&s->data); }
+  else g_T_destroyed++;
 }
 static OpResult OpResult_empty(void) { OpResult r; r.has = 0; r.buf_.live = 0; r.buf_.value = 0; r.buf_.moved_from = 0; return r; }
 static OpResult OpResult_from(T_tag v) { OpResult r; r.has = 1; r.buf_.live = 1; r.buf_.value = v; r.buf_.moved_from = 0; g_T_constructed++; return r; }
 
 size_t wrapIndex(size_t i)
-__CPROVER_ensures(RV < kBufferSize && RV == i % kBufferSize)
+__CPROVER_ensures(RV < kBufferSize && RV == WRAP(i))
 __CPROVER_assigns()
 #include "Mpmc_wrapIndex.body.inc"
 
 /* ------------------------------------------------------------------ contracts */
-size_t g_k;                        /* ghost slot index: the postconditions speak about an arbitrary slot */
 size_t g_batch_i;                  /* ghost index into the batch */
 size_t g_head0, g_tail0; T_tag g_head_value;
-#define FRAME *self, g_last_mo, g_bad_order, g_T_constructed, g_T_destroyed, g_claims, g_publishes, g_claimed_pos, g_claimed_val, g_claimed_n, \
-              __CPROVER_object_whole(g_own), __CPROVER_object_whole(g_ownpos)
-#define PRE (self == g_ring && (g_role == 0 || g_role == 1) && GLOBAL_OK(self) && g_k < kBufferSize && !g_bad_order && g_claims == 0 && g_publishes == 0 && \
-             g_T_constructed == 0 && g_T_destroyed == 0 && g_head0 == self->head_ && g_tail0 == self->tail_)
-/* after every operation: invariant for the ghost slot, nothing left owned, memory-order discipline kept, occupancy bounded */
-#define POST (GLOBAL_OK(self) && I_J(self, g_k) && g_own[g_k] == 0 && !g_bad_order && self->tail_ - self->head_ <= kBufferSize)
-/* a successful push: exactly one claim of one position, one object constructed, published in the claimed position's slot with seq = pos+1
- * (the slot is then B(pos+1) or already consumed/reused: seq only grows) */
+#define FRAME *self, g_last_mo, g_bad_order, g_T_constructed, g_T_destroyed, g_claims, g_publishes, g_claimed_pos, g_claimed_val, g_claimed_n
+#define PRE (self == g_ring && (g_role == 0 || g_role == 1) && GLOBAL_OK(self) && g_k < kBufferSize && g_a < kBufferSize && !g_bad_order && g_claims == 0 && g_publishes == 0 && \
+             g_T_constructed == 0 && g_T_destroyed == 0 && g_head0 == self->head_ && g_tail0 == self->tail_ && self->sa.own == 0 && self->sk.own == 0)
+/* after every operation: invariant for the tracked slots, nothing left owned, memory-order discipline kept, occupancy bounded */
+#define POST (GLOBAL_G(self) && INV_A(self) && INV_K(self) && self->sa.own == 0 && self->sk.own == 0 && !g_bad_order && self->tail_ - self->head_ <= kBufferSize)
+/* a successful push: exactly one claim of one position, one object constructed, published in the claimed position's slot with seq = pos+1 */
 #define PUSH_OK(val) (g_claims == 1 && g_claimed_n == 1 && g_publishes == 1 && g_T_constructed == 1 && g_T_destroyed == 0 && \
-                      (g_role == 0 ==> (self->tail_ == g_tail0 + 1 && self->head_ == g_head0 && self->slots_[WRAP(g_tail0)].seq == g_tail0 + 1 && \
-                                        self->slots_[WRAP(g_tail0)].data.live == 1 && self->slots_[WRAP(g_tail0)].data.value == (val))))
+                      (g_role == 0 ==> (self->tail_ == g_tail0 + 1 && self->head_ == g_head0 && WRAP(g_tail0) == g_a && self->sa.seq == g_tail0 + 1 && \
+                                        self->sa.data.live == 1 && self->sa.data.value == (val))))
 #define NOTHING_DONE (g_claims == 0 && g_publishes == 0 && g_T_constructed == 0 && g_T_destroyed == 0 && (g_role == 0 ==> (self->tail_ == g_tail0 && self->head_ == g_head0)))
 
 bool Mpmc_emplaceImpl(Ring* self, T_tag args)
@@ -161,7 +252,7 @@ __CPROVER_assigns(FRAME)
  * slot released for position pos + N */
 #define POP_OK(outval) (g_claims == 1 && g_publishes == 1 && g_T_destroyed == 1 && (outval) == g_claimed_val && \
                         (g_role == 0 ==> (self->head_ == g_head0 + 1 && self->tail_ == g_tail0 && g_claimed_pos == g_head0 && (outval) == g_head_value && \
-                                          self->slots_[WRAP(g_head0)].seq == g_head0 + kBufferSize && self->slots_[WRAP(g_head0)].data.live == 0)))
+                                          WRAP(g_head0) == g_a && self->sa.seq == g_head0 + kBufferSize && self->sa.data.live == 0)))
 bool Mpmc_try_pop_ref(Ring* self, T_cell* item)
 __CPROVER_requires(PRE && item->live == 1)
 __CPROVER_ensures(POST)
@@ -197,9 +288,9 @@ __CPROVER_ensures(POST)
 __CPROVER_ensures(RV <= count && RV <= kBufferSize && g_T_constructed == RV && g_T_destroyed == 0 && g_publishes == RV)
 __CPROVER_ensures(RV > 0 ==> (g_claims == 1 && g_claimed_n == RV))
 __CPROVER_ensures(RV == 0 ==> NOTHING_DONE)
-/* quiescent: pushes min(count, free space) elements in order at the old tail */
-__CPROVER_ensures(g_role == 0 ==> (RV == (count < kBufferSize - (g_tail0 - g_head0) ? count : kBufferSize - (g_tail0 - g_head0)) && self->tail_ == g_tail0 + RV && self->head_ == g_head0))
-__CPROVER_ensures((g_role == 0 && g_batch_i < RV) ==> (self->slots_[WRAP(g_tail0 + g_batch_i)].seq == g_tail0 + g_batch_i + 1 && self->slots_[WRAP(g_tail0 + g_batch_i)].data.value == items[g_batch_i].value))
+/* quiescent, all slots tracked (kBufferSize == 2): pushes min(count, free space) elements in order at the old tail */
+__CPROVER_ensures((g_role == 0 && kBufferSize == 2 && g_a != g_k) ==> (RV == (count < kBufferSize - (g_tail0 - g_head0) ? count : kBufferSize - (g_tail0 - g_head0)) && self->tail_ == g_tail0 + RV && self->head_ == g_head0))
+__CPROVER_ensures((g_role == 0 && g_batch_i < RV && g_a != g_k && WRAP(g_tail0 + g_batch_i) == g_k) ==> (self->sk.seq == g_tail0 + g_batch_i + 1 && self->sk.data.value == items[g_batch_i].value))
 __CPROVER_assigns(FRAME, __CPROVER_object_whole(items))
 #include "Mpmc_try_push_batch.body.inc"
 
@@ -219,34 +310,35 @@ __CPROVER_ensures(RV == self->tail_ - self->head_ && RV <= kBufferSize)
 __CPROVER_assigns(g_last_mo)
 #include "Mpmc_size.body.inc"
 
-/* constructor: establishes the invariant for every slot, quiescent and empty */
+/* constructor: establishes the invariant for every slot (g_k arbitrary), quiescent and empty */
 void Mpmc_ctor(Ring* self)
-__CPROVER_requires(self == g_ring && g_role == 0 && self->head_ == 0 && self->tail_ == 0 && g_k < kBufferSize && self->slots_[g_k].data.live == 0)
-__CPROVER_ensures(GLOBAL_OK(self) && I_J(self, g_k) && QUIET_J(self, g_k) && self->slots_[g_k].seq == g_k)
-__CPROVER_assigns(__CPROVER_object_whole(self->slots_), g_last_mo)
+__CPROVER_requires(self == g_ring && g_role == 0 && self->head_ == 0 && self->tail_ == 0 && g_k < kBufferSize && g_a == g_k && self->sa.data.live == 0 && self->sa.own == 0)
+__CPROVER_ensures(GLOBAL_G(self) && I_S(self, &self->sa, g_a) && QUIET_S(self, &self->sa, g_a) && self->sa.seq == g_a)
+__CPROVER_assigns(*self, g_last_mo)
 #include "Mpmc_ctor.body.inc"
 
-/* destructor (quiescent): destroys exactly the elements still in the buffer, each once */
+/* destructor (quiescent): destroys exactly the elements still in the buffer, each once (tracked slot g_k arbitrary) */
 void Mpmc_dtor(Ring* self)
-__CPROVER_requires(self == g_ring && g_role == 0 && GLOBAL_OK(self) && g_k < kBufferSize && g_T_destroyed == 0 && g_head0 == self->head_ && g_tail0 == self->tail_)
-__CPROVER_ensures(self->slots_[g_k].data.live == 0 && g_T_destroyed == g_tail0 - g_head0)
-__CPROVER_assigns(__CPROVER_object_whole(self->slots_), g_last_mo, g_T_destroyed)
+__CPROVER_requires(self == g_ring && g_role == 0 && GLOBAL_OK(self) && g_k < kBufferSize && g_a == g_k && g_T_destroyed == 0 && g_head0 == self->head_ && g_tail0 == self->tail_)
+__CPROVER_ensures(self->sa.data.live == 0 && g_T_destroyed == g_tail0 - g_head0)
+__CPROVER_assigns(*self, g_last_mo, g_T_destroyed)
 #include "Mpmc_dtor.body.inc"
 
 #ifdef VERIF_CBMC
+static void mk_slot(Slot* s) {
+  s->own = 0; s->ownpos = 0; s->seq = nondet_size_t(); s->data.value = nondet_int(); s->data.live = nondet_bool() ? 1 : 0; s->data.moved_from = 0;
+}
 static void mk(Ring* r, int role, int quiet) {
-  g_ring = r; g_role = role; g_bad_order = 0; g_viol = 0; g_T_constructed = 0; g_T_destroyed = 0; g_claims = 0; g_publishes = 0;
+  g_ring = r; g_role = role; g_bad_order = 0; g_T_constructed = 0; g_T_destroyed = 0; g_claims = 0; g_publishes = 0;
   size_t h = nondet_size_t(), t = nondet_size_t();
   r->head_ = h; r->tail_ = t; __CPROVER_assume(GLOBAL_OK(r));
-  for (size_t j = 0; j < kBufferSize; ++j) {
-    g_own[j] = 0; g_ownpos[j] = 0;
-    r->slots_[j].seq = nondet_size_t(); r->slots_[j].data.value = nondet_int(); r->slots_[j].data.live = nondet_bool() ? 1 : 0; r->slots_[j].data.moved_from = 0;
-    __CPROVER_assume(I_J(r, j));
-    if (quiet) __CPROVER_assume(QUIET_J(r, j));
-  }
-  g_k = nondet_size_t(); __CPROVER_assume(g_k < kBufferSize);
+  g_k = nondet_size_t(); __CPROVER_assume(g_k < kBufferSize); g_a = nondet_size_t(); __CPROVER_assume(g_a < kBufferSize);
+  mk_slot(&r->sa); mk_slot(&r->sk); r->junk.own = 0;
+  wrap_axioms(r);
+  __CPROVER_assume(INV_A(r) && INV_K(r));
+  if (quiet) __CPROVER_assume(QUIET_S(r, &r->sa, g_a) && (g_k == g_a || QUIET_S(r, &r->sk, g_k)));
   g_batch_i = nondet_size_t();
-  g_head0 = h; g_tail0 = t; g_head_value = r->slots_[WRAP(h)].data.value;
+  g_head0 = h; g_tail0 = t; g_head_value = (WRAP(h) == g_a) ? r->sa.data.value : r->sk.data.value;
 }
 /* role is symbolic: one proof covers the concurrent case (arbitrary in-flight peers, interference) and the quiescent one */
 static int pick_role(int* quiet) { int role = nondet_bool() ? 1 : 0; *quiet = (role == 0); return role; }
@@ -259,6 +351,7 @@ void h_Mpmc_try_push_batch(void) { Ring r; int q; int role = pick_role(&q); mk(&
 void h_Mpmc_empty(void) { Ring r; mk(&r, 0, 1); Mpmc_empty(&r); }
 void h_Mpmc_full(void) { Ring r; mk(&r, 0, 1); Mpmc_full(&r); }
 void h_Mpmc_size(void) { Ring r; mk(&r, 0, 1); Mpmc_size(&r); }
-void h_Mpmc_ctor(void) { Ring r; g_ring = &r; g_role = 0; r.head_ = 0; r.tail_ = 0; for (size_t j = 0; j < kBufferSize; ++j) { r.slots_[j].data.live = 0; r.slots_[j].seq = nondet_size_t(); } g_k = nondet_size_t(); __CPROVER_assume(g_k < kBufferSize); Mpmc_ctor(&r); }
-void h_Mpmc_dtor(void) { Ring r; mk(&r, 0, 1); Mpmc_dtor(&r); }
+void h_Mpmc_ctor(void) { Ring r; g_ring = &r; g_role = 0; r.head_ = 0; r.tail_ = 0; g_k = nondet_size_t(); __CPROVER_assume(g_k < kBufferSize); g_a = g_k; r.sa.data.live = 0; r.sa.own = 0; r.sa.seq = nondet_size_t(); r.junk.own = 0; Mpmc_ctor(&r); }
+void h_Mpmc_dtor(void) { Ring r; mk(&r, 0, 1); __CPROVER_assume(g_a == g_k); Mpmc_dtor(&r); }
+#endif
 #endif
